@@ -3,7 +3,9 @@ iterative scheme (bounded stand-in; see docs/BOUNDED_GUIDE.md).
 
 Oracles: pixel centres from C02's formula  y = o_y + ((H-1)/2 - i) s_y,  x = o_x + (j - (W-1)/2) s_x ;  sub-pixel (a, b) of a
 sub x sub partition (a counted from the top, b from the left) has centre  y = cy + s_y/2 - (a + 1/2) s_y/sub ,
-x = cx - s_x/2 + (b + 1/2) s_x/sub ; binned value = arithmetic mean over the pixel's own sub x sub block."""
+x = cx - s_x/2 + (b + 1/2) s_x/sub ; binned value = arithmetic mean over the pixel's own sub x sub block.
+reuse-*: the same oracles for every mask of a SEQUENCE of masks served by one and the same OverSamplingUniform /
+OverSamplingIterate / OverSamplingDataset object (stale state kept on the over-sampling object)."""
 import numpy as np
 from pyvc.bounded import bounded
 from pyvc import gens
@@ -503,4 +505,225 @@ def iterate_zero_at_all_centres(mask, pixel_scales, origin, amp, steps, frac, vi
     if got.shape != want.shape or not _close(got, want):
         return "function zero at every pixel centre: got %r, rule gives %r (levels %r)" % (
             got, want, [l.tolist() for l in levels])
+    return None
+
+
+# ------------------------------------------------------------------------------------------------ one over-sampling object, many masks
+
+_REUSE_PS = [(1.0, 1.0), (0.5, 2.0), (2.0, 0.3), (0.1, 0.1), (1.0, 0.25), (1.0, 2.0), (0.4, 0.9)]
+_REUSE_OG = [(0.0, 0.0), (0.5, -1.0), (-3.0, 2.0), (0.3, -0.7), (0.1, 0.2)]
+_REUSE_ROUTES = ["over_sampler_from", "grid_from_mask", "grid_ctor", "subtracted_from", "dataset"]
+
+
+def _other_pattern(rng, mask):
+    """a mask of the same shape with a different True/False pattern and at least one unmasked pixel (None if impossible)"""
+    if mask.size < 2:
+        return None
+    for _ in range(20):
+        m2 = mask.copy()
+        for _ in range(rng.randint(1, 2)):
+            i, j = rng.randrange(mask.shape[0]), rng.randrange(mask.shape[1])
+            m2[i, j] = not m2[i, j]
+        if (~m2).sum() >= 1 and not np.array_equal(m2, mask):
+            return m2
+    return None
+
+
+def _reuse_case(rng, m, hi, i):
+    """a sequence of uses of ONE over-sampling object: 2..4 steps; consecutive steps share the True/False pattern and
+    differ in pixel scales and / or origin, or (pattern id 1) share the geometry and differ in the pattern"""
+    k = rng.choice([2, 2, 3, 4])
+    mode = i % 4                       # 0: scales+origin differ, 1: only origin, 2: only scales, 3: pattern differs too
+    ps0, og0 = rng.choice(_REUSE_PS), rng.choice(_REUSE_OG)
+    geoms, pats = [], []
+    m2 = _other_pattern(rng, m) if mode == 3 else None
+    for s in range(k):
+        while True:
+            ps = ps0 if mode == 1 else rng.choice(_REUSE_PS)
+            og = og0 if mode == 2 else rng.choice(_REUSE_OG)
+            if mode == 3 and s % 2 == 1 and m2 is not None:
+                ps, og = geoms[-1]      # same geometry as the previous step, other pattern
+                break
+            if not geoms or (tuple(ps), tuple(og)) != (tuple(geoms[-1][0]), tuple(geoms[-1][1])):
+                break
+        geoms.append((tuple(ps), tuple(og)))
+        pats.append(1 if (mode == 3 and s % 2 == 1 and m2 is not None) else 0)
+    n = int((~m).sum())
+    uniform = m2 is not None
+    sub = [rng.randint(2, hi)] * n if uniform else _sub_map(rng, n, hi)
+    return {"mask": m, "mask2": m2, "geoms": geoms, "patterns": pats, "sub": sub,
+            "as_int": True if uniform else bool(rng.getrandbits(1)),
+            "routes": [rng.choice(_REUSE_ROUTES[:4] if rng.random() < 0.85 else _REUSE_ROUTES) for _ in range(k)],
+            "offset": (rng.choice([0.25, -1.5, 0.7]), rng.choice([-0.35, 2.0, 0.05]))}
+
+
+def _gen_reuse(rng, tier):
+    hi = gens.budget(tier, 3, 6)
+    i = 0
+    for m in gens.all_masks(gens.budget(tier, 6, 8), min_unmasked=1):
+        c = _reuse_case(rng, m, hi, i)
+        c["spec"] = _spec(rng, [1, 0, 2, 7, 3, 4, 5][i % 7])
+        i += 1
+        yield c
+    for _ in range(gens.budget(tier, 400, 3000)):
+        c = _reuse_case(rng, gens.random_mask(rng, 5, 5, min_unmasked=1), hi, i)
+        c["spec"] = _spec(rng)
+        i += 1
+        yield c
+
+
+def _nt_reuse(geoms, sub, **k):
+    return len(geoms) >= 2 and max(sub) > 1
+
+
+@bounded("C09", "reuse-one-uniform-object-many-masks", gen=_gen_reuse, nontrivial=_nt_reuse)
+def reuse_uniform_object(mask, mask2, geoms, patterns, sub, as_int, routes, offset, spec):
+    """C09: 'For every mask and per-pixel sub-size map, the over-sampled grid holds sub_size^2 points per unmasked pixel at
+    the centres of a uniform sub_size x sub_size partition of THAT pixel ... Any user function evaluated on a grid through
+    the over-sampling decorator returns exactly this binned result' -- whatever the over-sampling OBJECT was used for
+    before: ONE OverSamplingUniform (and one OverSamplingDataset holding it) is used successively for 2..4 masks that share
+    shape and True/False pattern but differ in pixel scales and / or origin (or share the geometry and differ in the
+    pattern), through over_sampler_from, Grid2D.from_mask(..., over_sampling=obj).over_sampler, Grid2D(values, mask,
+    over_sampling=obj), grid.subtracted_from(offset) and Imaging(over_sampling=...).apply_mask(mask).grids; at every step
+    the over-sampled grid, slim_for_sub_slim, sub_pixel_areas and the @over_sample-decorated function must equal the
+    oracle for THAT step's mask (sub-pixel centres of its own pixels, per-pixel means); every step is then repeated once
+    (second use of the same mask after the others); bound: all masks <= 6 (8) cells + 400 (3000) random <= 5x5, sequences
+    of 2..4 geometries from 7 pixel scales x 5 origins, uniform and per-pixel sub maps 1..3 (1..6), 8 function families."""
+    import autoarray as aa
+    n0 = int((~mask).sum())
+    if as_int and len(set(sub)) == 1:
+        sub_size = int(sub[0])
+    else:
+        sub_size = aa.Array2D(values=[int(s) for s in sub], mask=aa.Mask2D(mask=mask.copy(), pixel_scales=geoms[0][0], origin=geoms[0][1]))
+    osu = aa.OverSamplingUniform(sub_size=sub_size)
+    osd = aa.OverSamplingDataset(uniform=osu, pixelization=osu)
+    log = []
+    prof = _make_profile(aa, spec, False, log)
+
+    def check(label, pattern, ps, og, subs, sampler=None, grid=None):
+        blocks = _sub_blocks(pattern, ps, og, subs)
+        want = np.vstack(blocks)
+        if sampler is None:
+            sampler = grid.over_sampler
+        got = np.asarray(sampler.over_sampled_grid, dtype=float)
+        if got.shape != want.shape or not _close(got, want):
+            return "%s: over-sampled grid is not at the sub-pixel centres of this mask (pixel scales %r, origin %r): first point %r, want %r" % (
+                label, ps, og, got[:1].tolist(), want[:1].tolist())
+        owner = np.concatenate([[k] * len(b) for k, b in enumerate(blocks)])
+        if not np.array_equal(np.asarray(sampler.slim_for_sub_slim), owner):
+            return "%s: slim_for_sub_slim is not pixel-by-pixel in slim order" % label
+        areas = np.asarray(sampler.sub_pixel_areas, dtype=float)
+        want_areas = np.concatenate([[ps[0] * ps[1] / int(s) ** 2] * int(s) ** 2 for s in subs])
+        if areas.shape != want_areas.shape or not np.allclose(areas, want_areas, rtol=1e-12, atol=0.0):
+            return "%s: sub_pixel_areas are not this mask's pixel area / sub^2" % label
+        wantv = _binned(spec, blocks)
+        if grid is not None:
+            res = prof.image_2d_from(grid)
+        else:
+            res = sampler.array_via_func_from(func=lambda obj, g, *a, **kw: _f(spec, np.array(g, dtype=float)), obj=prof)
+        gv = np.asarray(res.slim if hasattr(res, "slim") else res, dtype=float)
+        if gv.shape != wantv.shape or not _close(gv, wantv):
+            k = int(np.argmax(np.abs(gv - wantv))) if gv.shape == wantv.shape else 0
+            return "%s: function through the over-sampling object gives %r at pixel %d, mean over this mask's sub-pixels is %r" % (
+                label, gv.tolist()[k:k + 1], k, wantv[k])
+        if hasattr(res, "mask") and max(subs) > 1 and not np.array_equal(np.asarray(res.mask), pattern):
+            return "%s: result is on a different mask" % label
+        return None
+
+    steps = list(range(len(geoms))) + list(range(len(geoms)))       # every mask is used a second time after the others
+    for t, s in enumerate(steps):
+        (ps, og), route = geoms[s], routes[s]
+        pattern = mask2 if patterns[s] == 1 else mask
+        subs = [int(sub[0])] * int((~pattern).sum()) if patterns[s] == 1 or len(sub) != int((~pattern).sum()) else sub
+        label = "use %d (%s, geometry #%d)" % (t + 1, route, s)
+        mk = aa.Mask2D(mask=pattern.copy(), pixel_scales=ps, origin=og)
+        if route == "over_sampler_from":
+            err = check(label, pattern, ps, og, subs, sampler=osu.over_sampler_from(mask=mk))
+        elif route == "grid_from_mask":
+            err = check(label, pattern, ps, og, subs, grid=aa.Grid2D.from_mask(mask=mk, over_sampling=osu))
+        elif route == "grid_ctor":
+            err = check(label, pattern, ps, og, subs, grid=aa.Grid2D(values=_centres(pattern, ps, og), mask=mk, over_sampling=osu))
+        elif route == "subtracted_from":
+            og_b = (og[0] + offset[0], og[1] + offset[1])
+            base = aa.Grid2D.from_mask(mask=aa.Mask2D(mask=pattern.copy(), pixel_scales=ps, origin=og_b), over_sampling=osu)
+            err = check(label + " base grid", pattern, ps, og_b, subs, grid=base)
+            if err is None:
+                shifted = base.subtracted_from(offset=offset)
+                og_s = (og_b[0] - offset[0], og_b[1] - offset[1])
+                if not np.allclose(np.asarray(shifted.mask.origin), og_s, rtol=0, atol=1e-12):
+                    return None                                    # geometry of the shifted grid is C12's business
+                err = check(label + " shifted grid", pattern, ps, og_s, subs, grid=shifted)
+        else:
+            shape = pattern.shape
+            data = aa.Array2D.no_mask(values=np.ones(shape), pixel_scales=ps, origin=og)
+            ds = aa.Imaging(data=data, noise_map=aa.Array2D.no_mask(values=np.ones(shape), pixel_scales=ps, origin=og),
+                            over_sampling=osd).apply_mask(mask=mk)
+            err = check(label + " grids.uniform", pattern, ps, og, subs, grid=ds.grids.uniform)
+            if err is None:
+                err = check(label + " grids.pixelization", pattern, ps, og, subs, sampler=ds.grids.pixelization.over_sampler)
+        if err:
+            return err + " [sequence of geometries %r, patterns %r]" % (geoms, patterns)
+    return None
+
+
+def _gen_reuse_iterate(rng, tier):
+    schedules = [[2, 4], [2, 3], [2, 4, 8], [3], [2, 3, 4]]
+    fracs = [0.5, 0.9, 0.99, 0.9999]
+    i = 0
+
+    def case(m):
+        nonlocal i
+        k = rng.choice([2, 3])
+        geoms = []
+        while len(geoms) < k:
+            g = (tuple(rng.choice(_REUSE_PS)), tuple(rng.choice(_REUSE_OG)))
+            if not geoms or g != geoms[-1]:
+                geoms.append(g)
+        c = {"mask": m, "geoms": geoms, "spec": _spec(rng, [0, 7, 4, 1, 2, 3, 5][i % 7]), "steps": schedules[i % len(schedules)],
+             "frac": fracs[(i // 2) % len(fracs)], "rel": None if rng.random() < 0.7 else 10.0 ** rng.uniform(-3, 0),
+             "via_decorator": [bool(rng.getrandbits(1)) for _ in range(k)]}
+        i += 1
+        return c
+
+    for m in gens.all_masks(gens.budget(tier, 6, 7), min_unmasked=1):
+        yield case(m)
+    for _ in range(gens.budget(tier, 300, 2000)):
+        yield case(gens.random_mask(rng, 4, 4, min_unmasked=1))
+
+
+@bounded("C09", "reuse-one-iterate-object-many-masks", gen=_gen_reuse_iterate,
+         nontrivial=lambda geoms, steps, spec, **k: len(geoms) >= 2 and spec["kind"] != 6)
+def reuse_iterate_object(mask, geoms, spec, steps, frac, rel, via_decorator):
+    """C09: 'The iterative scheme returns for each pixel the binned value at the first sub-size of its schedule whose
+    agreement with the previous level ... meets the requested fractional accuracy ...; otherwise the value at the last
+    sub-size' -- for every mask, whatever the OverSamplingIterate object was used for before: ONE OverSamplingIterate is
+    used successively (and then once more each) for 2..3 masks with the same True/False pattern and different pixel
+    scales / origins, through over_sampler_from(mask).array_via_func_from and through @over_sample with
+    Grid2D.from_mask(mask, over_sampling=obj); oracle = the statement's rule on THAT mask's sub-pixel centres; steps with a
+    comparison within 1e-7 of a threshold, or a function vanishing at every pixel centre, are skipped; bound: all masks <=
+    6 (7) cells + 300 (2000) random <= 4x4, 5 schedules, 4 accuracies, 7 function families."""
+    import autoarray as aa
+    osi = aa.OverSamplingIterate(fractional_accuracy=frac, relative_accuracy=rel, sub_steps=list(steps))
+    log = []
+    prof = _make_profile(aa, spec, False, log)
+    order = list(range(len(geoms))) + list(range(len(geoms)))
+    for t, s in enumerate(order):
+        ps, og = geoms[s]
+        if _centres_all_zero(spec, mask, ps, og):
+            continue
+        want, ambiguous, levels = _iterate_oracle(spec, mask, ps, og, steps, frac, rel)
+        if ambiguous:
+            continue
+        mk = aa.Mask2D(mask=mask.copy(), pixel_scales=ps, origin=og)
+        if via_decorator[s]:
+            got = prof.image_2d_from(aa.Grid2D.from_mask(mask=mk, over_sampling=osi))
+        else:
+            got = osi.over_sampler_from(mask=mk).array_via_func_from(
+                func=lambda obj, g, *a, **kw: _f(spec, np.array(g, dtype=float).reshape(-1, 2)), obj=None)
+        got = np.asarray(got.slim if hasattr(got, "slim") else got, dtype=float)
+        if got.shape != want.shape or not _close(got, want):
+            return "use %d of one OverSamplingIterate (pixel scales %r, origin %r, %s): got %r, rule on this mask gives %r [sequence %r]" % (
+                t + 1, ps, og, "decorator" if via_decorator[s] else "over_sampler_from", got.tolist(), want.tolist(), geoms)
+        if list(osi.sub_steps) != list(steps) or osi.fractional_accuracy != frac or osi.relative_accuracy != rel:
+            return "use %d modified the OverSamplingIterate object's settings" % (t + 1)
     return None
